@@ -143,3 +143,154 @@ def post_hints(ob):
             add(LEMMAS['afold_ok_mono'].stmt(dict(v, j=j, d=t.sub(K, j))))
             add(LEMMAS['lazy_values'].stmt(dict(v, j=j, K=K)))
     return out
+
+
+# ================================================================================================ LazyStruct against the eager Struct fold
+VS = [('sl', t.INT), ('buf', t.ARR), ('len', t.INT), ('p0', t.INT), ('H', 'Heap'), ('D', 'Dom'), ('base', t.INT), ('c', t.INT), ('r', t.INT)]
+
+
+def SF(v, k):
+    return t.app('pfold', 'PS', v['sl'], k, s0(v), v['buf'], v['len'], v['base'], v['c'], v['r'])
+
+
+def sgood(s):
+    return t.and_(ps('ps_ok', s), t.not_(ps('ps_stop', s)))
+
+
+def smember(v, i):
+    return t.app('sl_at', t.INT, v['sl'], i)
+
+
+def spargs(v, i):
+    s = SF(v, i)
+    return (smember(v, i), v['buf'], v['len'], ps('ps_pos', s), v['base'], ps('ps_H', s), ps('ps_D', s), v['c'])
+
+
+def srargs(v, i, p):
+    return (smember(v, i), v['buf'], v['len'], p, v['base']) + REF
+
+
+def lzspos(v, j):
+    return t.app('lzspos', t.INT, v['sl'], j, v['p0'], v['buf'], v['len'], v['base'], *REF)
+
+
+def lzsok(v, j):
+    return t.app('lzsok', t.BOOL, v['sl'], j, v['p0'], v['buf'], v['len'], v['base'], *REF)
+
+
+def sdef_zero(v):
+    return t.eq(SF(v, t.ZERO), s0(v))
+
+
+def sdef_step(v, k):
+    """good(k) needs good(k-1) and a successful parse of member k-1, and then stands where that parse ended"""
+    i = t.sub(k, t.ONE)
+    s, s1 = SF(v, i), SF(v, k)
+    ok = t.app('P_ok', t.BOOL, *spargs(v, i))
+    return t.implies(t.ge(k, t.ONE), t.and_(t.implies(sgood(s1), t.and_(sgood(s), ok)),
+                                            t.implies(t.and_(sgood(s), ok), t.and_(sgood(s1), t.eq(ps('ps_pos', s1), t.app('P_end', t.INT, *spargs(v, i)))))))
+
+
+def sdef_lz(v, k):
+    prev = lzspos(v, t.sub(k, t.ONE))
+    a = (smember(v, t.sub(k, t.ONE)), prev, v['buf'], v['len'], v['base']) + REF
+    return t.and_(t.eq(lzspos(v, t.ZERO), v['p0']), lzsok(v, t.ZERO),
+                  t.implies(t.ge(k, t.ONE), t.and_(t.eq(lzspos(v, k), t.app('lzstep_pos', t.INT, *a)), t.eq(lzsok(v, k), t.and_(lzsok(v, t.sub(k, t.ONE)), t.app('lzstep_ok', t.BOOL, *a))))))
+
+
+def straits(v, i, codes):
+    a = spargs(v, i)
+    r = srargs(v, i, a[3])
+    out = []
+    for fn, sort in (('P_ok', t.BOOL), ('P_val', t.VAL), ('P_end', t.INT), ('A_ok', t.BOOL), ('A_val', t.INT), ('A_exc', t.INT)):
+        out.append(t.eq(t.app(fn, sort, *a), t.app(fn, sort, *r)))
+    pok, aok = t.app('P_ok', t.BOOL, *r), t.app('A_ok', t.BOOL, *r)
+    out.append(t.implies(t.and_(aok, pok), t.eq(t.app('P_end', t.INT, *r), t.add(a[3], t.app('A_val', t.INT, *r)))))
+    out.append(t.implies(pok, t.or_(aok, t.or_(*[t.eq(t.app('A_exc', t.INT, *r), I(c)) for c in codes]))))
+    return out
+
+
+def make_struct(src):
+    codes = sorted(src.exc_code[n] for n in src.exc_descendants('SizeofError'))
+    keep = lambda v: [{n: v[n] for n, _ in VS}]     # noqa
+    Lemma('pfold_good_prefix', VS + [('k', t.INT)],
+          lambda v: t.implies(t.and_(t.ge(v['k'], t.ONE), sgood(SF(v, v['k']))), sgood(SF(v, t.sub(v['k'], t.ONE)))),
+          tags=T, defs=lambda v: [sdef_step(v, v['k'])])
+    Lemma('pfold_good_mono', VS + [('j', t.INT), ('d', t.INT)],
+          lambda v: t.implies(t.and_(t.ge(v['j'], t.ZERO), t.ge(v['d'], t.ZERO), sgood(SF(v, t.add(v['j'], v['d'])))), sgood(SF(v, v['j']))),
+          induct=('d', 0), tags=T, ih_instances=lambda v: [{n: v[n] for n, _ in VS + [('j', t.INT)]}],
+          hints=lambda v: [LEMMAS['pfold_good_prefix'].stmt(dict({n: v[n] for n, _ in VS}, k=t.add(v['j'], v['d'])))])
+    Lemma('lazy_struct_positions', VS + [('k', t.INT)],
+          lambda v: t.implies(t.and_(t.ge(v['k'], t.ZERO), sgood(SF(v, v['k']))), t.and_(lzsok(v, v['k']), t.eq(lzspos(v, v['k']), ps('ps_pos', SF(v, v['k']))))),
+          induct=('k', 0), tags=T, ih_instances=keep, hints=lambda v: [LEMMAS['pfold_good_prefix'].stmt(v)],
+          traits=lambda v: straits(v, t.sub(v['k'], t.ONE), codes), defs=lambda v: [sdef_zero(v), sdef_step(v, v['k']), sdef_lz(v, v['k'])],
+          doc='where the eager Struct parse stands after k members is where the lazy bookkeeping puts member k')
+
+    def values(v):
+        j, K = v['j'], v['K']
+        return t.implies(t.and_(t.le(t.ZERO, j), t.lt(j, K), sgood(SF(v, K))),
+                         t.and_(t.app('P_ok', t.BOOL, *srargs(v, j, lzspos(v, j))), t.eq(t.app('P_val', t.VAL, *spargs(v, j)), t.app('P_val', t.VAL, *srargs(v, j, lzspos(v, j))))))
+    Lemma('lazy_struct_values', VS + [('j', t.INT), ('K', t.INT)], values, tags=T,
+          hints=lambda v: [LEMMAS['lazy_struct_positions'].stmt(dict({n: v[n] for n, _ in VS}, k=v['j'])),
+                           LEMMAS['pfold_good_mono'].stmt(dict({n: v[n] for n, _ in VS}, j=t.add(v['j'], t.ONE), d=t.sub(v['K'], t.add(v['j'], t.ONE)))),
+                           LEMMAS['pfold_good_mono'].stmt(dict({n: v[n] for n, _ in VS}, j=v['j'], d=t.sub(v['K'], v['j'])))],
+          traits=lambda v: straits(v, v['j'], codes), defs=lambda v: [sdef_step(v, t.add(v['j'], t.ONE))],
+          doc='what member j parses to in the eager fold is what it yields at its lazy offset in the reference scope')
+
+
+def no_stop_members(sl, stop_codes):
+    """domain restriction (listed in the evidence): no member of the list ends a parse with StopFieldError (no StopIf inside)"""
+    j = t.var('nsj!', t.INT)
+    buf, ln, base = t.var('nsb!', t.ARR), t.var('nsl!', t.INT), t.var('nss!', t.INT)
+    p, H, D, c = t.var('nsp!', t.INT), t.var('nsH!', 'Heap'), t.var('nsD!', 'Dom'), t.var('nsc!', t.INT)
+    a = t.app('P_exc', t.INT, t.app('sl_at', t.INT, sl, j), buf, ln, p, base, H, D, c)
+    return t.forall([j, buf, ln, p, base, H, D, c], t.not_(t.or_(*[t.eq(a, I(x)) for x in stop_codes])), pats=[[a]])
+
+
+def make_nostop(src):
+    stop = sorted(src.exc_code[n] for n in src.exc_descendants('StopFieldError'))
+
+    def step_full(v, k):
+        prev = SF(v, t.sub(k, t.ONE))
+        step = t.app('pstep', 'PS', smember(v, t.sub(k, t.ONE)), prev, v['buf'], v['len'], v['base'], v['c'], v['r'])
+        return t.implies(t.ge(k, t.ONE), t.eq(SF(v, k), step))
+    Lemma('pfold_never_stops', VS + [('k', t.INT)],
+          lambda v: t.implies(no_stop_members(v['sl'], stop), t.not_(ps('ps_stop', SF(v, v['k'])))),
+          induct=('k', 0), tags=T, ih_instances=lambda v: [{n: v[n] for n, _ in VS}],
+          defs=lambda v: [sdef_zero(v), step_full(v, v['k'])], doc='without a StopIf among the members the eager fold never stops early')
+    return stop
+
+
+def struct_post_hints(src):
+    stop = sorted(src.exc_code[n] for n in src.exc_descendants('StopFieldError'))
+
+    def hints(ob):
+        apps = ghost.find_apps(list(ob.hyps) + [ob.goal], ('pfold', 'sl_at', 'P_exc', 'lzspos', 'lzsok'))
+        out, seen = [], set()
+
+        def add(x):
+            if x.smt() not in seen:
+                seen.add(x.smt())
+                out.append(x)
+        idx = {a.args[1].smt(): a.args[1] for a in apps['sl_at'].values() if not ghost.has_bound_var(a)}
+        for a in list(apps['lzspos'].values()) + list(apps['lzsok'].values()):
+            if not ghost.has_bound_var(a):
+                idx[a.args[1].smt()] = a.args[1]
+        for pf in apps['pfold'].values():
+            if ghost.has_bound_var(pf):
+                continue
+            sl, K, s0_, buf, ln, base, c, r = pf.args
+            if s0_.op != 'mkPS' or s0_.args[0].smt() != 'true' or s0_.args[1].smt() != 'false':
+                continue
+            v = dict(sl=sl, buf=buf, len=ln, p0=s0_.args[2], H=s0_.args[3], D=s0_.args[4], base=base, c=c, r=r)
+            add(LEMMAS['lazy_struct_positions'].stmt(dict(v, k=K)))
+            add(LEMMAS['pfold_never_stops'].stmt(dict(v, k=K)))
+            for j in idx.values():
+                add(LEMMAS['lazy_struct_positions'].stmt(dict(v, k=j)))
+                add(LEMMAS['pfold_good_mono'].stmt(dict(v, j=j, d=t.sub(K, j))))
+                add(LEMMAS['lazy_struct_values'].stmt(dict(v, j=j, K=K)))
+                # the eager value of member j sits in the result container under its name (lemma struct_result_holds)
+                fv = {'sl': sl, 'base': base, 'pbuf': buf, 'plen': ln, 'q0': s0_.args[2], 'Hp': s0_.args[3], 'Dp': s0_.args[4], 'cp': c, 'r': r}
+                add(LEMMAS['struct_result_holds'].stmt(dict(fv, j=j, d=t.sub(t.sub(K, j), t.ONE))))
+        return out
+    return hints
